@@ -94,6 +94,26 @@ def run(chk: core.Check, n: int, n_obj: int):
     for l in range(1, 9):
         chk.hist("sequence_length", l, int((L == l).sum()))
     chk.hist("accumulated_turning", "within_half_turn", int(within.sum())); chk.hist("accumulated_turning", "beyond", int((~within).sum()))
+    # ---- the same array moved twice: the array itself and the first result are untouched, the second move starts from the same helix
+    pa = ak.zip({"x": pivs[0][:, 0], "y": pivs[0][:, 1], "z": pivs[0][:, 2]}, with_name="Vector3D")
+    pb = ak.zip({"x": pivs[Lmax - 1][:, 0] + 1.5, "y": pivs[Lmax - 1][:, 1] - 0.5, "z": pivs[Lmax - 1][:, 2] + 2.0}, with_name="Vector3D")
+    for label, src in (("array", hc.impl_arr(h)), ("multi-track record", ak.Array([hc.impl_arr(h)])[0] if False else None)):
+        if src is None:
+            continue
+        snap = lambda a: {k: ak.to_numpy(a[k]).copy() for k in ("dr", "phi0", "kappa", "dz", "tanl")}
+        before = snap(src)
+        r1 = src.change_pivot(pa); s1 = snap(r1)
+        r2 = src.change_pivot(pb); s2 = snap(r2)
+        fresh2 = snap(hc.impl_arr(h).change_pivot(pb))
+        chk.count(3 * n, key="same-array-twice")
+        for what, got, want, orc in (("helix array after it was moved to another pivot", snap(src), before, "a pivot change returns a new helix and leaves the one it was applied to unchanged"),
+                                     ("result of an earlier pivot change after the same array was moved again", snap(r1), s1, "a result that was handed out does not change afterwards"),
+                                     ("second move of the same array vs the same move of a fresh copy", s2, fresh2, "every move of a helix starts from that helix's parameters, whatever was done with it before")):
+            badk = [k for k in want if not np.array_equal(got[k], want[k], equal_nan=True)]
+            if badk:
+                k = badk[0]; i = int(np.nonzero(~((got[k] == want[k]) | (np.isnan(got[k]) & np.isnan(want[k]))))[0][0])
+                chk.failing_input(what, dict(pd(i), field=k, moves=[pivs[0][i].tolist(), (pivs[Lmax - 1][i] + np.array([1.5, -0.5, 2.0])).tolist()]), float(got[k][i]), float(want[k][i]), orc)
+                break
     # ---- identity and there-and-back (array form with error matrices)
     A = rng.normal(size=(n, 5, 5)); E = A @ A.transpose(0, 2, 1) * 1e-4
     arr = hc.impl_arr(h, error=E)
@@ -160,8 +180,15 @@ def run(chk: core.Check, n: int, n_obj: int):
     t1 = tuple(float(x) for x in rng.uniform(-20, 20, 3) + 0.251)
     t2 = tuple(float(x) for x in rng.uniform(-20, 20, 3) + 0.377)
     mk = lambda: pybes3.helix_awk(dr=ak.Array(hi["dr"]), phi0=ak.Array(hi["phi0"]), kappa=ak.Array(hi["kappa"]), dz=ak.Array(hi["dz"]), tanl=ak.Array(hi["tanl"]), pivot=(0.5, -0.25, 1.5))
-    via = to_np(mk().change_pivot(t1).change_pivot(t2)); dire = to_np(mk().change_pivot(t2))
+    try:
+        via = to_np(mk().change_pivot(t1).change_pivot(t2)); dire = to_np(mk().change_pivot(t2))
+    except Exception as ex:
+        chk.failing_input("change_pivot on integer-typed dr/dz columns with non-integer tuple pivots raised", {"helix": {k: np.asarray(hi[k][:3]).tolist() for k in ("dr", "phi0", "kappa", "dz", "tanl")}, "dtypes": {"dr": "int64", "dz": "int32"}, "pivot": [0.5, -0.25, 1.5], "sequence": [list(t1), list(t2)]},
+                          f"{type(ex).__name__}: {str(ex)[:300]}", "the moved helices", "moving a helix through a sequence of pivots gives the result of the direct move (for every dtype the columns are stored with)")
+        via = dire = None
     chk.count(3 * m, key="int-dtype-chain")
+    if via is None:
+        return []
     hreg = dict(hi, dr=hi["dr"].astype(float), piv=np.array([(0.5, -0.25, 1.5)] * m), new=np.array([t2] * m))
     regi = hc.regular_mask(hreg) & hc.regular_mask(dict(hreg, new=np.array([t1] * m)))
     sci = 1 + np.abs(hc.rho(hi["kappa"])) + 40
